@@ -33,9 +33,11 @@ OBLIGATIONS = [
     "SkVerif.C19.overwrite_recomputes_all",
     "SkVerif.C19.uninterrupted_log_exactly_once",
     "SkVerif.C19.resume_registry_complete_partial",
+    "SkVerif.C19.registry_covers_when_object_reused",
     "SkVerif.C19.resume_registry_incomplete_witness",
     "SkVerif.C19.ram_key_collision_witness",
     "SkVerif.C19.mkWork_keys_injective",
+    "SkVerif.C19.validate_ok_names_nodup",
 ]
 TRUSTED = [
     "hand-written model SkVerif/Model/Orch.lean of Orchestrator.fit_predict / _iter and of the two result stores",
@@ -473,7 +475,7 @@ def _canon(out):
         v = d[k]
         sec = k.split(".", 1)[-1]
         if sec in ("wr", "recs", "strats"):
-            v = _join(sorted([] if v == "-" else v.split("|")), "|")
+            v = _join(sorted(set([] if v == "-" else v.split("|"))), "|")
         elif sec in ("master", "reg") and v != "none":
             a, b = v.split("+")
             v = "%s+%s" % (_join(sorted([] if a == "-" else a.split(",")), ","), _join(sorted([] if b == "-" else b.split(",")), ","))
